@@ -18,8 +18,9 @@ PLAN["C01"] = {"kernels": [r"getitem", r"regularize", r"slicearray", r"jagged", 
                "kinds": ["S", "E", "F"], "trusted": KERNEL_TRUST}
 PLAN["C02"] = {"kernels": [r"compact_offsets", r"broadcast_tooffsets", r"toRegularArray", r"getitem_nextcarry", r"simplify",
                            r"toIndexedOptionArray", r"BitMaskedArray_to", r"Index\w*_to_Index64", r"contiguous", r"index_carry",
-                           r"Index\w*_carry", r"ListArray\w*_num_", r"RegularArray_num", r"iscontiguous"],
-               "kinds": ["SIG", "S", "E", "F"], "trusted": KERNEL_TRUST}
+                           r"Index\w*_carry", r"ListArray\w*_num_", r"RegularArray_num", r"iscontiguous", r"rpad", r"ByteMaskedArray",
+                           r"localindex", r"flatten_offsets"],
+               "kinds": ["SIG", "S", "E", "F"], "extra": [], "trusted": KERNEL_TRUST}
 PLAN["C03"] = {"kernels": [r"reduce", r"zeroparents", r"index_of_nulls"],
                "kinds": ["S", "E", "F"], "trusted": KERNEL_TRUST}
 PLAN["C04"] = {"kernels": [r"broadcast_tooffsets", r"compact_offsets"],
@@ -51,8 +52,15 @@ def _builders_engine(pid, tier, seed, known):
 
 from . import builders as _builders_mod   # noqa: E402
 PLAN["C14"] = {"kernels": [], "kinds": [], "extra": [_builders_engine], "trusted": _builders_mod.TRUSTED}
-PLAN["C12"]["extra"] = [_builders_engine, _forth_engine]
-PLAN["C12"]["trusted"] = KERNEL_TRUST + _builders_mod.TRUSTED + _forth_mod.TRUSTED
+def _gsite_engine(pid, tier, seed, known):
+    from . import gsite
+    return gsite.engine(pid, tier, seed, known)
+
+
+G_TRUST = ["Engine G uses no path conditions: a call site is counted only if the allocation expression alone implies the kernel's extent; the other sites are listed as g_undecided_sites in the evidence and are not covered",
+           "Engine G reads the call sites from the source text (kernel::NAME<...>(kernel::lib::cpu, ...) with `x.data()` arguments of locals declared `Index..(EXPR)` in the same function); other argument forms are not covered"]
+PLAN["C12"]["extra"] = [_builders_engine, _forth_engine, _gsite_engine]
+PLAN["C12"]["trusted"] = KERNEL_TRUST + _builders_mod.TRUSTED + _forth_mod.TRUSTED + G_TRUST
 
 
 def _partition_engine(pid, tier, seed, known):
